@@ -810,7 +810,7 @@ func (x *e1) checkCancelledCall(sd *sideRec, verb string, start int, err error) 
 		// cancelled (the parked write may have completed before the transport
 		// was closed); anything else must be the context's error
 		// (if the connection went away for another reason at the same time, that reason may win)
-		otherCause := x.serveDone || x.sep.IsClosed() || x.ioFired() || x.transportClosedByHarness() || x.closeStep > 0
+		otherCause := x.phase == "q4" || x.serveDone || x.sep.IsClosed() || x.ioFired() || x.transportClosedByHarness() || x.closeStep > 0
 		if err != nil && !isCtxErr(err) && err != io.EOF && !sd.ClosedByMe && !otherCause {
 			x.viol("cancel-error", fmt.Sprintf("send blocked in the transport at cancel returned %s instead of the context error (default mode)", errClass(err)), errStr(err))
 		}
